@@ -123,6 +123,7 @@ type wrappedSink struct {
 	lastError             error
 	lastProcessed         int
 	recursionDepth        int
+	rejectedInRun         bool
 }
 
 // verifyErrorHandlers checks that the error handlers are valid, and also
@@ -322,6 +323,7 @@ func (w *wrappedSink) processEntities(runner *Runner, entities []*server.Entity)
 			}
 			if !errors.Is(err, MaxItemsExceededError) {
 				w.lastError = err
+				w.rejectedInRun = true
 			}
 			return nil
 		} else {
@@ -346,8 +348,9 @@ func (w *wrappedSink) processEntities(runner *Runner, entities []*server.Entity)
 			return leftErr
 		}
 	} else {
-		// unset error if this was an unsplit batch without failure
-		if w.recursionDepth == 0 {
+		// unset error if this was an unsplit batch without failure, unless an entity of this very run
+		// has been rejected: that error has to make it into the recorded outcome
+		if w.recursionDepth == 0 && !w.rejectedInRun {
 			w.lastError = nil
 		}
 	}
@@ -364,6 +367,7 @@ func (w *wrappedSink) endFullSync(ctx context.Context, runner *Runner) error {
 
 func (w *wrappedSink) reset() {
 	w.recursionDepth = 0
+	w.rejectedInRun = false
 	for _, eh := range w.failingEntityHandlers {
 		eh.reset()
 	}
